@@ -2547,5 +2547,225 @@ pub proof fn lemma_push_step(s: Seq<EncodingStep>, x: EncodingStep, pk: MqttPack
     }
 //@end
 
+
+// ---------------------------------------------------------------------------------------------------------------------------------
+// MQTT 3.1.1 UNSUBSCRIBE on the wire (C02), OASIS 3.1.1 section 3.10: A2, Remaining Length, Packet Identifier, then per topic filter a
+// 2-byte length and its UTF-8 bytes, in the order given.
+#[verifier::external_body]
+pub fn verif_of_FnP_MqttPacket_usize__str<F: Fn(&MqttPacket, usize) -> &str>(f: F) -> (r: FnP_MqttPacket_usize__str)
+    ensures forall|p: MqttPacket, i: usize| #[trigger] f.requires((&p, i)) ==> exists|out: &str| #[trigger] f.ensures((&p, i), out) && g_istr(r, p, i) == str_bytes(out@),
+{ unimplemented!() }
+//@macro gneiss-mqtt/src/encode.rs encode_indexed_string fnptr_opaque
+//@const gneiss-mqtt/src/mqtt/utils.rs UNSUBSCRIBE_FIRST_BYTE
+//@const gneiss-mqtt/src/mqtt/utils.rs SUBSCRIBE_FIRST_BYTE
+
+pub open spec fn count_ok(n: nat) -> bool { n <= 16777216 }
+pub open spec fn filters_len(v: Seq<String>, n: nat) -> nat decreases n { if n == 0 { 0 } else { filters_len(v, (n - 1) as nat) + 2 + blen(v[n - 1]@) } }
+pub open spec fn filters_ok(v: Seq<String>) -> bool { forall|i: int| 0 <= i < v.len() ==> blen((#[trigger] v[i])@) <= 65535 }
+pub open spec fn filters_bytes(v: Seq<String>, n: nat) -> Seq<u8> decreases n {
+    if n == 0 { Seq::<u8>::empty() } else { filters_bytes(v, (n - 1) as nat) + be16_bytes(blen(v[n - 1]@) as u16) + str_bytes(v[n - 1]@) }
+}
+pub proof fn lemma_filters_bytes_len(v: Seq<String>, n: nat)
+    requires n <= v.len(),
+    ensures filters_bytes(v, n).len() == filters_len(v, n),
+    decreases n
+{
+    if n > 0 { lemma_filters_bytes_len(v, (n - 1) as nat); axiom_str_bytes(v[n - 1]@); }
+}
+pub open spec fn unsubscribe311_bytes(p: UnsubscribePacket) -> Seq<u8> {
+    seq![0xA2u8] + vli(2 + filters_len(p.topic_filters@, p.topic_filters@.len())) + be16_bytes(p.packet_id) + filters_bytes(p.topic_filters@, p.topic_filters@.len())
+}
+pub open spec fn is_unsubscribe_of(pk: MqttPacket, p: UnsubscribePacket) -> bool { pk matches MqttPacket::Unsubscribe(q) && q == p }
+
+//@fn gneiss-mqtt/src/mqtt/unsubscribe.rs get_unsubscribe_packet_topic_filter props=C02
+    requires packet matches MqttPacket::Unsubscribe(u) && index < u.topic_filters@.len(),
+    ensures packet matches MqttPacket::Unsubscribe(u) && r@ == u.topic_filters@[index as int]@,
+//@end
+
+// proved in the validate unit (same contract); a signature-only stub here
+//@fn gneiss-mqtt/src/mqtt/unsubscribe.rs compute_unsubscribe_packet_length_properties311 stub
+    requires filters_ok(packet.topic_filters@), count_ok(packet.topic_filters@.len()), 2 + filters_len(packet.topic_filters@, packet.topic_filters@.len()) <= 268435455,
+    ensures r matches Ok(rem) && rem == 2 + filters_len(packet.topic_filters@, packet.topic_filters@.len()),
+//@end
+
+//@fn gneiss-mqtt/src/mqtt/unsubscribe.rs write_unsubscribe_encoding_steps311 props=C02 desugar
+    requires
+        filters_ok(packet.topic_filters@), count_ok(packet.topic_filters@.len()),       // send-time validation (C16, validate unit)
+        2 + filters_len(packet.topic_filters@, packet.topic_filters@.len()) <= 268435455,
+    ensures
+        r is Ok,
+        forall|pk: MqttPacket| is_unsubscribe_of(pk, *packet) && steps_wf(old(steps)@, pk) ==> steps_wf(final(steps)@, pk),
+        forall|pk: MqttPacket| is_unsubscribe_of(pk, *packet) ==> #[trigger] flat(final(steps)@, pk) == flat(old(steps)@, pk) + unsubscribe311_bytes(*packet),
+//@@at bodystart
+    let ghost s0 = steps@;
+    let ghost mut cur = steps@;
+    let ghost mut acc = Seq::<u8>::empty();
+    proof { assert forall|pk: MqttPacket| flat(cur, pk) == flat(s0, pk) + acc by { assert(flat(s0, pk) + acc =~= flat(s0, pk)); } }
+//@@at after "encode_integral_expression!(steps, Uint8, UNSUBSCRIBE_FIRST_BYTE);"
+    proof {
+        assert(UNSUBSCRIBE_FIRST_BYTE == 0xA2u8) by (compute);
+        let x = EncodingStep::Uint8(0xA2u8);
+        assert(steps@ =~= cur.push(x));
+        assert forall|pk: MqttPacket| flat(steps@, pk) == flat(s0, pk) + (acc + seq![0xA2u8]) by { lemma_push_step(cur, x, pk, flat(s0, pk), acc); assert(step_bytes(x, pk) =~= seq![0xA2u8]); }
+        acc = acc + seq![0xA2u8]; cur = steps@;
+    }
+//@@at after "encode_integral_expression!(steps, Vli, total_remaining_length);"
+    proof {
+        let x = EncodingStep::Vli(total_remaining_length);
+        let bytes = vli(2 + filters_len(packet.topic_filters@, packet.topic_filters@.len()));
+        assert(steps@ =~= cur.push(x));
+        assert forall|pk: MqttPacket| flat(steps@, pk) == flat(s0, pk) + (acc + bytes) by { lemma_push_step(cur, x, pk, flat(s0, pk), acc); assert(step_bytes(x, pk) =~= bytes); }
+        acc = acc + bytes; cur = steps@;
+    }
+//@@at after "encode_integral_expression!(steps, Uint16, packet.packet_id);"
+    proof {
+        let x = EncodingStep::Uint16(packet.packet_id);
+        assert(steps@ =~= cur.push(x));
+        assert forall|pk: MqttPacket| flat(steps@, pk) == flat(s0, pk) + (acc + be16_bytes(packet.packet_id)) by { lemma_push_step(cur, x, pk, flat(s0, pk), acc); assert(step_bytes(x, pk) =~= be16_bytes(packet.packet_id)); }
+        acc = acc + be16_bytes(packet.packet_id); cur = steps@;
+    }
+    let ghost head = acc;
+//@@loop 0 iter=it
+        invariant
+            topic_filters@ == packet.topic_filters@, it.seq().len() == packet.topic_filters@.len(), count_ok(packet.topic_filters@.len()),
+            verif_enum0 == it.index@,
+            cur == steps@,
+            forall|pk: MqttPacket| is_unsubscribe_of(pk, *packet) ==> #[trigger] flat(steps@, pk) == flat(s0, pk) + (head + filters_bytes(packet.topic_filters@, it.index@ as nat)),
+            forall|pk: MqttPacket| is_unsubscribe_of(pk, *packet) && steps_wf(s0, pk) ==> steps_wf(steps@, pk),
+//@@at before "verif_enum0 += 1;"
+            proof { assert(it.index@ < it.seq().len()); }
+//@@at after "encode_indexed_string!(steps, get_unsubscribe_packet_topic_filter, topic_filter, i);"
+            proof {
+                let n = it.index@;
+                assert(*topic_filter == packet.topic_filters@[n]);
+                let x = steps@[steps@.len() - 2]; let y = steps@[steps@.len() - 1];
+                assert(steps@ =~= cur.push(x).push(y));
+                axiom_str_bytes(topic_filter@);
+                let fb = filters_bytes(packet.topic_filters@, n as nat);
+                assert forall|pk: MqttPacket| is_unsubscribe_of(pk, *packet) implies
+                    flat(steps@, pk) == flat(s0, pk) + (head + filters_bytes(packet.topic_filters@, (n + 1) as nat)) && step_wf(y, pk) && step_wf(x, pk) by {
+                    assert(get_unsubscribe_packet_topic_filter.requires((&pk, i)));
+                    lemma_push_step(cur, x, pk, flat(s0, pk), head + fb);
+                    lemma_push_step(cur.push(x), y, pk, flat(s0, pk), head + fb + step_bytes(x, pk));
+                    assert(step_bytes(x, pk) =~= be16_bytes(blen(topic_filter@) as u16));
+                    assert(step_whole(y, pk) == str_bytes(topic_filter@));
+                    assert(step_bytes(y, pk) =~= str_bytes(topic_filter@));
+                    assert(head + fb + step_bytes(x, pk) + step_bytes(y, pk) =~= head + filters_bytes(packet.topic_filters@, (n + 1) as nat));
+                }
+                cur = steps@;
+            }
+//@@at before "Ok(())"
+    proof {
+        assert(head + filters_bytes(packet.topic_filters@, packet.topic_filters@.len()) =~= unsubscribe311_bytes(*packet));
+    }
+//@end
+
+
+// ---------------------------------------------------------------------------------------------------------------------------------
+// MQTT 3.1.1 SUBSCRIBE on the wire (C02), OASIS 3.1.1 section 3.8: 82, Remaining Length, Packet Identifier, then per subscription a
+// 2-byte length, the filter's UTF-8 bytes and the requested QoS byte, in the order given.
+pub open spec fn subs_len(v: Seq<Subscription>, n: nat) -> nat decreases n { if n == 0 { 0 } else { subs_len(v, (n - 1) as nat) + 3 + blen(v[n - 1].topic_filter@) } }
+pub open spec fn subs_ok(v: Seq<Subscription>) -> bool { forall|i: int| 0 <= i < v.len() ==> blen((#[trigger] v[i]).topic_filter@) <= 65535 }
+pub open spec fn subs_bytes(v: Seq<Subscription>, n: nat) -> Seq<u8> decreases n {
+    if n == 0 { Seq::<u8>::empty() } else { subs_bytes(v, (n - 1) as nat) + be16_bytes(blen(v[n - 1].topic_filter@) as u16) + str_bytes(v[n - 1].topic_filter@) + seq![qos_num(v[n - 1].qos)] }
+}
+pub proof fn lemma_subs_bytes_len(v: Seq<Subscription>, n: nat)
+    requires n <= v.len(),
+    ensures subs_bytes(v, n).len() == subs_len(v, n),
+    decreases n
+{
+    if n > 0 { lemma_subs_bytes_len(v, (n - 1) as nat); axiom_str_bytes(v[n - 1].topic_filter@); }
+}
+pub open spec fn subscribe311_bytes(p: SubscribePacket) -> Seq<u8> {
+    seq![0x82u8] + vli(2 + subs_len(p.subscriptions@, p.subscriptions@.len())) + be16_bytes(p.packet_id) + subs_bytes(p.subscriptions@, p.subscriptions@.len())
+}
+pub open spec fn is_subscribe_of(pk: MqttPacket, p: SubscribePacket) -> bool { pk matches MqttPacket::Subscribe(q) && q == p }
+
+//@fn gneiss-mqtt/src/mqtt/subscribe.rs get_subscribe_packet_topic_filter props=C02
+    requires packet matches MqttPacket::Subscribe(u) && index < u.subscriptions@.len(),
+    ensures packet matches MqttPacket::Subscribe(u) && r@ == u.subscriptions@[index as int].topic_filter@,
+//@end
+
+// proved in the validate unit (same contract); a signature-only stub here
+//@fn gneiss-mqtt/src/mqtt/subscribe.rs compute_subscribe_packet_length_properties311 stub
+    requires subs_ok(packet.subscriptions@), count_ok(packet.subscriptions@.len()), 2 + subs_len(packet.subscriptions@, packet.subscriptions@.len()) <= 268435455,
+    ensures r matches Ok(rem) && rem == 2 + subs_len(packet.subscriptions@, packet.subscriptions@.len()),
+//@end
+
+//@fn gneiss-mqtt/src/mqtt/subscribe.rs write_subscribe_encoding_steps311 props=C02 desugar
+    requires
+        subs_ok(packet.subscriptions@), count_ok(packet.subscriptions@.len()),       // send-time validation (C16, validate unit)
+        2 + subs_len(packet.subscriptions@, packet.subscriptions@.len()) <= 268435455,
+    ensures
+        r is Ok,
+        forall|pk: MqttPacket| is_subscribe_of(pk, *packet) && steps_wf(old(steps)@, pk) ==> steps_wf(final(steps)@, pk),
+        forall|pk: MqttPacket| is_subscribe_of(pk, *packet) ==> #[trigger] flat(final(steps)@, pk) == flat(old(steps)@, pk) + subscribe311_bytes(*packet),
+//@@at bodystart
+    let ghost s0 = steps@;
+    let ghost mut cur = steps@;
+    let ghost mut acc = Seq::<u8>::empty();
+    proof { assert forall|pk: MqttPacket| flat(cur, pk) == flat(s0, pk) + acc by { assert(flat(s0, pk) + acc =~= flat(s0, pk)); } }
+//@@at after "encode_integral_expression!(steps, Uint8, SUBSCRIBE_FIRST_BYTE);"
+    proof {
+        assert(SUBSCRIBE_FIRST_BYTE == 0x82u8) by (compute);
+        let x = EncodingStep::Uint8(0x82u8);
+        assert(steps@ =~= cur.push(x));
+        assert forall|pk: MqttPacket| flat(steps@, pk) == flat(s0, pk) + (acc + seq![0x82u8]) by { lemma_push_step(cur, x, pk, flat(s0, pk), acc); assert(step_bytes(x, pk) =~= seq![0x82u8]); }
+        acc = acc + seq![0x82u8]; cur = steps@;
+    }
+//@@at after "encode_integral_expression!(steps, Vli, total_remaining_length);"
+    proof {
+        let x = EncodingStep::Vli(total_remaining_length);
+        let bytes = vli(2 + subs_len(packet.subscriptions@, packet.subscriptions@.len()));
+        assert(steps@ =~= cur.push(x));
+        assert forall|pk: MqttPacket| flat(steps@, pk) == flat(s0, pk) + (acc + bytes) by { lemma_push_step(cur, x, pk, flat(s0, pk), acc); assert(step_bytes(x, pk) =~= bytes); }
+        acc = acc + bytes; cur = steps@;
+    }
+//@@at after "encode_integral_expression!(steps, Uint16, packet.packet_id);"
+    proof {
+        let x = EncodingStep::Uint16(packet.packet_id);
+        assert(steps@ =~= cur.push(x));
+        assert forall|pk: MqttPacket| flat(steps@, pk) == flat(s0, pk) + (acc + be16_bytes(packet.packet_id)) by { lemma_push_step(cur, x, pk, flat(s0, pk), acc); assert(step_bytes(x, pk) =~= be16_bytes(packet.packet_id)); }
+        acc = acc + be16_bytes(packet.packet_id); cur = steps@;
+    }
+    let ghost head = acc;
+//@@loop 0 iter=it
+        invariant
+            subscriptions@ == packet.subscriptions@, it.seq().len() == packet.subscriptions@.len(), count_ok(packet.subscriptions@.len()),
+            verif_enum0 == it.index@,
+            cur == steps@,
+            forall|pk: MqttPacket| is_subscribe_of(pk, *packet) ==> #[trigger] flat(steps@, pk) == flat(s0, pk) + (head + subs_bytes(packet.subscriptions@, it.index@ as nat)),
+            forall|pk: MqttPacket| is_subscribe_of(pk, *packet) && steps_wf(s0, pk) ==> steps_wf(steps@, pk),
+//@@at before "verif_enum0 += 1;"
+            proof { assert(it.index@ < it.seq().len()); }
+//@@at after "encode_integral_expression!(steps, Uint8, subscription.qos as u8);"
+            proof {
+                let n = it.index@;
+                assert(*subscription == packet.subscriptions@[n]);
+                let x = steps@[steps@.len() - 3]; let y = steps@[steps@.len() - 2]; let z = steps@[steps@.len() - 1];
+                assert(steps@ =~= cur.push(x).push(y).push(z));
+                axiom_str_bytes(subscription.topic_filter@);
+                assert(subscription.qos as u8 == qos_num(subscription.qos));
+                let fb = subs_bytes(packet.subscriptions@, n as nat);
+                assert forall|pk: MqttPacket| is_subscribe_of(pk, *packet) implies
+                    flat(steps@, pk) == flat(s0, pk) + (head + subs_bytes(packet.subscriptions@, (n + 1) as nat)) && step_wf(y, pk) && step_wf(x, pk) && step_wf(z, pk) by {
+                    assert(get_subscribe_packet_topic_filter.requires((&pk, i)));
+                    lemma_push_step(cur, x, pk, flat(s0, pk), head + fb);
+                    lemma_push_step(cur.push(x), y, pk, flat(s0, pk), head + fb + step_bytes(x, pk));
+                    lemma_push_step(cur.push(x).push(y), z, pk, flat(s0, pk), head + fb + step_bytes(x, pk) + step_bytes(y, pk));
+                    assert(step_bytes(x, pk) =~= be16_bytes(blen(subscription.topic_filter@) as u16));
+                    assert(step_whole(y, pk) == str_bytes(subscription.topic_filter@));
+                    assert(step_bytes(y, pk) =~= str_bytes(subscription.topic_filter@));
+                    assert(step_bytes(z, pk) =~= seq![qos_num(subscription.qos)]);
+                    assert(head + fb + step_bytes(x, pk) + step_bytes(y, pk) + step_bytes(z, pk) =~= head + subs_bytes(packet.subscriptions@, (n + 1) as nat));
+                }
+                cur = steps@;
+            }
+//@@at before "Ok(())"
+    proof {
+        assert(head + subs_bytes(packet.subscriptions@, packet.subscriptions@.len()) =~= subscribe311_bytes(*packet));
+    }
+//@end
+
 } // verus!
 fn main() {}
